@@ -784,7 +784,7 @@ Lemma prune_safe g fs ol lim :
   repo_ok g fs -> crash_safe g fs (op_prune g fs ol lim).
 Proof.
   intros r Wm Wi R. unfold crash_safe, op_prune. fold r.
-  destruct (walk_all (S (List.length g)) r) as [st|e] eqn:Hw; [|constructor].
+  destruct (walk_all (gc_fuel r) r) as [st|e] eqn:Hw; [|constructor].
   set (del := filter (fun o => negb (mem o st.(seen) || (lim && negb (mem o ol)))) (loose_ids fs)).
   assert (Hdel : forall ds, (forall o, In o ds -> In o del) -> repo_ok g (fold_left fdel (map PLoose ds) fs)).
   { intros ds Hds. apply remove_unneeded_loose; [assumption|].
@@ -855,7 +855,7 @@ Lemma repack_safe g fs op lim :
   repo_ok g fs -> crash_safe g fs (op_repack g fs op lim).
 Proof.
   intros r Wm Wi Fr R. unfold crash_safe, op_repack. fold r.
-  destruct (walk_all (S (List.length g)) r) as [st|e] eqn:Hw; [|constructor].
+  destruct (walk_all (gc_fuel r) r) as [st|e] eqn:Hw; [|constructor].
   set (os := present st). set (name := new_pack_name fs) in *.
   destruct (forallb (has r) os) eqn:Hhas.
   2:{ cbn [crash_states mid_states apply]. split_states. eapply agree_repo_ok; [apply agree_set_tmp|exact R]. }
